@@ -4,11 +4,21 @@ from sx import plspec, cfg
 from . import common as C
 
 
+
+def _clear_caches(ns_):
+    """empty the configurator-level caches if the current tree has any (lru_cache on the class, pinned tree); a no-op for per-instance caches"""
+    for name in ("ge_polyhedron", "leafs"):
+        f = ns_.cc.StingyConfigurator.__dict__.get(name)
+        f = getattr(f, "fget", f)
+        cc_ = getattr(f, "cache_clear", None)
+        if cc_ is not None:
+            cc_()
+
 def observe(spec, inputs):
     n = C.ns()
     out = {"error": None}
     try:
-        n.cc.StingyConfigurator.ge_polyhedron.fget.cache_clear()
+        _clear_caches(n)
         c = plspec.build(n, spec["model"], {})
         P = c.ge_polyhedron
         w = P._vectors_from_prios([dict(inputs["prios"])])
